@@ -18,6 +18,8 @@ import (
 
 	"verifharness/drv"
 	"verifharness/emit"
+
+	"github.com/zitadel/oidc/v3/pkg/client/rp"
 )
 
 func lvTerm(x lv) string { return emit.Pair(x.Loc, emit.Nat(x.Val)) }
@@ -51,11 +53,14 @@ func cfgTags(c worldCfg) []string {
 	return []string{fmt.Sprintf("spare=%v", c.spare), fmt.Sprintf("userEp=%v", c.userEp > 0), fmt.Sprintf("cfgStyle=%d", c.cfgStyle)}
 }
 
+var roptVerOpts = roptd{"RVerifierOpts 5", -1, func(w *world) rp.Option { return rp.WithVerifierOpts(w.rpVerOpts...) }}
+
 // one snapshot case: setup ops (outside the window), then the observed operation
 type snapCase struct {
-	cfg   worldCfg
-	setup []opd
-	o     opd
+	directed string
+	cfg      worldCfg
+	setup    []opd
+	o        opd
 }
 
 func genSnap(r drv.Rand, n int) snapCase {
@@ -86,7 +91,13 @@ func genSnap(r drv.Rand, n int) snapCase {
 		for j := r.IntN(5); j > 0; j-- {
 			opts = append(opts, genRopt(r))
 		}
-		sc.o = newRP(i, k == 5 && r.Bool(), opts)
+		oauth := k == 5 && r.Bool()
+		if !oauth && r.Chance(1, 4) { // directed: the former defect Fxx-C20-3 (append into the caller's WithVerifierOpts slice)
+			opts = append(opts, roptVerOpts, roptd{"RSigningAlgsFromDiscovery", -1, func(w *world) rp.Option { return rp.WithSigningAlgsFromDiscovery() }})
+			sc.cfg.spare = true
+			sc.directed = "Fxx-C20-3"
+		}
+		sc.o = newRP(i, oauth, opts)
 	case 6:
 		sc.o = newRP(i, true, append(withClient(), genRopt(r)))
 	case 7:
@@ -116,7 +127,7 @@ func genSnap(r drv.Rand, n int) snapCase {
 	case 10:
 		sc.o = devGetAudience()
 	case 11, 12:
-		sc.setup = []opd{newRP(i, false, withClient())}
+		sc.setup = []opd{newRP(i, false, append(withClient(), roptVerOpts))} // ES256 allowed: id tokens verify
 		sc.o = rpCall(i, c, r.IntN(10))
 	case 13:
 		cc := -1
@@ -173,6 +184,9 @@ func runSnap(w *emit.Writer, sc snapCase) {
 		obs = emit.Ctor("OChanged", lvList(ch))
 	}
 	tags := append([]string{"kind=snap", "op=" + sc.o.class, "sub=" + sc.o.class + "-" + sc.o.sub}, cfgTags(sc.cfg)...)
+	if sc.directed != "" {
+		tags = append(tags, "directed="+sc.directed)
+	}
 	w.Add(emit.Case{Input: emit.Ctor("ISnap", lvList(before), sc.o.coq), Observed: obs, Tags: tags,
 		Human: map[string]any{"op": sc.o.coq, "setup": coqs(sc.setup), "changed": ch, "panic": p}})
 }
@@ -209,8 +223,8 @@ func genGroup(r drv.Rand, g int) (group, string) {
 	case 2:
 		return group{[]opd{newLegacy(i, stor)}, provReq(i, stor, 0)}, "legacy"
 	case 3:
-		ops := []opd{newRP(i, false, copt)}
-		for _, k := range []int{4, 5, 3, 2, 8} {
+		ops := []opd{newRP(i, false, append(copt, roptVerOpts))}
+		for _, k := range []int{4, 5, 3, 2, 8, 9, 1} {
 			if r.Chance(1, 2) {
 				ops = append(ops, rpCall(i, c, k))
 			}
